@@ -299,6 +299,37 @@ def plain(items: list, data: dict[str, Any], st: dict[int, str]) -> str:
 # the implementation
 
 
+FAIL_BASES = [           # <L> / <R>: a marker position
+    "{{<L> user.name | upcase <R>}} x {%<L> if a <R>%}b{%<L> endif <R>%}",
+    "a {%<L> raw <R>%} r {%<L> endraw <R>%} {#<L> c <R>#} {%<L> # c <R>%} z",
+    "{%<L> for i in a0 <R>%} {{<L> i <R>}} {%<L> else <R>%} e {%<L> endfor <R>%}",
+    "{%<L> comment <R>%} c {%<L> endcomment <R>%}{%<L> liquid\n echo 'a' <R>%}{%<L> case k <R>%}{%<L> when 1 <R>%}w{%<L> endcase <R>%}",
+]
+
+
+def failing_templates(rf: Any, n: int) -> list[str]:
+    """Sources that fail to scan or parse part-way through MARKED markup: a
+    fixed set with every marker kind on either side, then a marked valid
+    template truncated at, or with a `$` inserted at, a seeded position."""
+    out = []
+    if n < 0:
+        for l in MARKS:
+            for rr in MARKS:
+                out += [f"{{{{{l} user.name | upcase $ {rr}}}}}", f"{{%{l} if x $ {rr}%}}a{{% endif %}}",
+                        f"t {{%{l} raw {rr}%}} never closed", f"t {{{{{l} x ", f"{{%{l} if x {rr}%}} no end tag",
+                        f"{{%{l} endif {rr}%}}", f"a {{%{l} comment {rr}%}} never closed", f"{{{{{l} 'open string {rr}}}}}",
+                        f"{{%{l} liquid\n echo $ {rr}%}}", f"{{%{l} case x {rr}%}} text {{% when 1 %}}{{% endcase %}}",
+                        f"{{%{l} for i in {rr}%}}", f"{{#{l} never closed", f"{{%{l} # c {rr}"]
+        return out
+    for _ in range(n):
+        base = rf.choice(FAIL_BASES)
+        while "<L>" in base or "<R>" in base:
+            base = base.replace("<L>", rf.choice(MARKS[1:] + ["-"]), 1).replace("<R>", rf.choice(MARKS[1:] + ["-"]), 1)
+        k = rf.randint(1, len(base) - 1)
+        out.append(base[:k] if rf.random() < 0.5 else base[:k] + "$" + base[k:])
+    return out
+
+
 class Impl:
     def __init__(self) -> None:
         from liquid2 import Environment, WhitespaceControl as W
@@ -308,6 +339,15 @@ class Impl:
 
     def tokens(self, src: str) -> list:
         return list(self.envs["+"].tokenize(src))
+
+    def fail_on(self, dt: str, src: str) -> bool:
+        """Give the long-lived environment a template that (most likely) fails
+        part-way through; whatever happens must leave no trace."""
+        try:
+            self.envs[dt].from_string(src)
+        except Exception:  # noqa: BLE001 - which error is C02's business
+            return True
+        return False
 
     def ast_obs(self, nodes: list) -> tuple[list[tuple[str, str, str]], list[str]]:
         from liquid2.builtin.content import ContentNode
@@ -589,6 +629,7 @@ def small_programs(r: Any, max_pos: int) -> list[list]:
 
 CORPUS: list[list] = [
     # past defects / boundary shapes, run first (with structured + random markers)
+    [("C", "Hello,  "), ("L", False, "out", 0), ("C", " \n "), ("B", "if", 0, [("C", " x ")], []), ("C", "\n!")],
     [("B", "if", 0, [("R", "hello")], [])],                                       # defect 18
     [("B", "for", 0, [("R", " hi ")], []), ("C", "\n")],
     [("B", "capture", 1, [("R", "hello")], []), ("L", False, "out", 1)],
@@ -965,9 +1006,12 @@ def main(chk: C.Check, build: C.Build) -> None:
         programs.append(("random", gen_items(r, r.choice([1, 2, 3] if thorough else [1, 2, 2, 3]), budget, top=True)))
     programs += [("illformed", p) for p in ILL_FORMED]
 
+    rf = C.rng("c18-failing-templates")
+    fixed_fails = failing_templates(rf, -1)
+    fail_i = [0]
     runner = GroupRunner(chk, "Trim.observe (render output, ContentNode trim pairs, RawNode texts)")
     stats = {"programs": 0, "renders": 0, "parses": 0, "exhaustive_programs": 0, "syntax_errors": 0,
-             "content_tokens_split_by_lexer": 0, "split_programs": 0, "suppressed_outputs": 0, "history_renders": 0,
+             "content_tokens_split_by_lexer": 0, "split_programs": 0, "suppressed_outputs": 0, "history_renders": 0, "failed_parses_interleaved": 0,
              "marker_positions_max": 0, "assignments": 0}
     nontrivial: set[str] = set()
     samples: list[dict[str, Any]] = []
@@ -1078,12 +1122,16 @@ def main(chk: C.Check, build: C.Build) -> None:
             srcs[num] = src
             no_trim_markers = all(m in ("", "+") for m in ms)
             # limits on/off is a configuration bit of every assignment; only the
-            # 4096-assignment sweeps of the thorough tier take it on a seeded quarter
-            with_limits = len(msets) < 4096 or r.random() < 0.25
+            # exhaustive sweeps take it on a seeded half (256 and 1024 assignments)
+            # or quarter (4096 assignments) of them
+            with_limits = len(msets) < 256 or rf.random() < (0.5 if len(msets) < 4096 else 0.25)
             # the three long-lived environments take turns in a different order
             # for every assignment: no render may depend on what another
             # environment rendered before
             for dt in r.sample(DTS, 3):
+                if rf.random() < 0.25:                   # a failed parse on this environment first
+                    fsrc = rf.choice(fixed_fails) if rf.random() < 0.5 else failing_templates(rf, 1)[0]
+                    stats["failed_parses_interleaved"] += impl.fail_on(dt, fsrc)
                 res = impl.run(src, dt, datas, splits if do_split else None, limits=with_limits)
                 stats["parses"] += 1
                 if res is None:
@@ -1166,6 +1214,12 @@ def main(chk: C.Check, build: C.Build) -> None:
                 for hsrc in hist:
                     for dt in perm:
                         env = impl.envs[dt]
+                        # failing templates between the successful renders
+                        fsrc = fixed_fails[fail_i[0] % len(fixed_fails)]
+                        fail_i[0] += 1
+                        last_fail = [fsrc] + failing_templates(rf, 1)
+                        for f_ in last_fail:
+                            stats["failed_parses_interleaved"] += impl.fail_on(dt, f_)
                         ts = [("fresh parse", env.from_string(hsrc))]
                         if (hsrc, dt) in held:
                             ts.append(("template kept from an earlier round", held[(hsrc, dt)]))
@@ -1183,7 +1237,8 @@ def main(chk: C.Check, build: C.Build) -> None:
                                                     f"{hsrc!r} with default_trim={dt!r} suppress={sup} rendered {want!r} at first and "
                                                     f"{o!r} after other environments rendered the same text ({how}; order {perm})",
                                                     {"source": hsrc, "default_trim": dt, "suppress": sup, "data": d,
-                                                     "first": want, "later": o, "order": perm, "how": how})
+                                                     "first": want, "later": o, "order": perm, "how": how,
+                                                     "templates_that_failed_just_before": last_fail})
                                         if len(extra_items) < 20:
                                             num_, mk_, rw_ = meta[(hsrc, dt)]
                                             extra_items.append(case_item(dt, sup, num_, di, o, mk_, rw_, hsrc, "history: " + how))
